@@ -46,6 +46,8 @@ manifest = {
     "engines": [
         {"name": "mptsim", "path": "/verif/harness/mptsim", "serves_properties": [p for p in ["C01", "C02", "C03", "C04", "C05", "C14", "C17"] if p in PROPS],
          "kind_free_text": "seeded histories over the real state trie on memory/layered/persistent (simulated RocksDB) stores, reference map + independent canonical hasher, crash-prefix enumeration"},
+        {"name": "wmptsim", "path": "/verif/harness/wmptsim", "serves_properties": [p for p in ["C09", "C10", "C11", "C12", "C13"] if p in PROPS],
+         "kind_free_text": "seeded histories over the real weighted trie on a simulated StorageAdapter / real pebble on StrictMem, sorted-map reference + independent hasher, crash-prefix enumeration, tampering channel for proofs"},
     ],
     "checks": checks,
     "not_applicable": na,
